@@ -127,6 +127,18 @@ TEMPLATES = {
     # on the element's progress): plain, with an own <break>, with an own chunked section
     # zero-size structs as required fields (nothing is written, but None / a bad nested value must still be refused),
     # a zero-length array inside a fixed-size element, element widths that come from an override
+    # a struct with its own chunked section, then a string: the mode the struct hands back decides how the string is
+    # sanitised / where it is cut
+    "structCstr": ('<field name="f{i}" type="C"/><field name="g{i}" type="string"/>', False),
+    # padded strings whose length comes from a <length> field (nothing is ever padded, but reading still cuts at 0xFF),
+    # boolean attributes spelled 0 (= false)
+    "lenstrpad": ('<length name="n{i}" type="char"/><field name="f{i}" type="string" length="n{i}" padded="true"/>', False),
+    "lenencpad": ('<length name="n{i}" type="char"/><field name="f{i}" type="encoded_string" length="n{i}" padded="true"/>', False),
+    "str4_0": ('<field name="f{i}" type="string" length="4" padded="0" optional="0"/>', False),
+    "bool_0": ('<field name="f{i}" type="bool" optional="0"/>', False),
+    # an optional array followed by what is written unconditionally (a break and the next chunk, a dummy)
+    "optarrbrk": ('<array name="f{i}" type="short" optional="true"/><break/><field name="g{i}" type="string"/>', True),
+    "optarrdummy": ('<array name="f{i}" type="char" optional="true"/><dummy type="char">0</dummy>', False),
     "structZ0": ('<field name="f{i}" type="Z0"/>', False),
     "structZ1": ('<field name="f{i}" type="Z1"/>', False),
     "arrZA": ('<array name="f{i}" type="ZA"/>', False),
